@@ -264,6 +264,9 @@ func c16Check(c *Ctx, f *c16File) {
 	}
 	line, p := safeParse(f.Data)
 	c.Case("F "+hx(f.Data), line)
+	if p.ErrClass != 0 {
+		c.Count(fmt.Sprintf("parser-error-class:%d", p.ErrClass))
+	}
 	// codec oracle for the glue model: what the codecs say about frame 0 of the parse
 	ck, cw, ch, ak := 0, 0, 0, 0
 	if p.ErrClass == 0 && len(p.Frames) > 0 {
